@@ -10,6 +10,7 @@ import (
 	"math/rand"
 	"strconv"
 	"strings"
+	"unicode/utf8"
 
 	"github.com/tobgu/qframe"
 	"github.com/tobgu/qframe/config/groupby"
@@ -405,6 +406,10 @@ func clip(s string, n int) string {
 func checkJSONAgainst(doc []byte, sh *model.Frame) string {
 	if !json.Valid(doc) {
 		return "invalid JSON syntax: " + clip(string(doc), 300)
+	}
+	if !utf8.Valid(doc) {
+		// JSON text is UTF-8 (RFC 8259); encoding/json would silently repair invalid bytes while decoding
+		return "invalid-utf8: the document contains bytes that are not valid UTF-8 (an invalid byte of a string was written unescaped)"
 	}
 	dec := json.NewDecoder(bytes.NewReader(doc))
 	dec.UseNumber()
